@@ -1,6 +1,7 @@
 package appdrv
 
 import (
+	"bytes"
 	"encoding/json"
 	"fmt"
 	"math/big"
@@ -311,7 +312,7 @@ func (g *Gen) NextTx(v *View) *Op {
 	from := 1 + g.Rng.Intn(g.NAcct)
 	invalid := ""
 	if g.Rng.Float64() < g.P.PInvalid {
-		invalid = []string{"nonce+", "nonce-", "gas", "price", "funds", "sig", "chain", "kind"}[g.Rng.Intn(8)]
+		invalid = []string{"nonce+", "nonce-", "gas", "price", "funds", "sig", "chain", "kind", "addrlen"}[g.Rng.Intn(9)]
 	}
 	fromName := g.acctName(from)
 	acct := v.Accts[fromName]
@@ -587,6 +588,21 @@ func (g *Gen) NextTx(v *View) *Op {
 		chain = g.G.ChainID + "x"
 		auth = "wrongchain"
 		tag += ":wrongchain"
+	case "addrlen":
+		// an address field that is not 20 bytes long: an existing address with bytes appended or cut off (correctly signed)
+		pad := [][]byte{{0x01}, {0x00, 0x02}, bytes.Repeat([]byte{0x03}, 12), bytes.Repeat([]byte{0x04}, 20)}[g.Rng.Intn(4)]
+		switch g.Rng.Intn(4) {
+		case 0:
+			tx.To = append(append([]byte{}, tx.To...), pad...)
+		case 1:
+			tx.To = append([]byte{}, g.B.KR.Addr(1+g.Rng.Intn(g.NAcct))...)
+			tx.To = append(tx.To, pad...)
+		case 2:
+			tx.To = append([]byte{}, tx.To[:19]...)
+		default:
+			tx.From = append(append([]byte{}, tx.From...), pad...)
+		}
+		tag += ":addrlen"
 	}
 	bz := g.B.Sign(tx, signer, chain)
 	op := Op{Kind: "deliver", Tx: HexTx(bz), Auth: auth, Tag: tag}
